@@ -155,15 +155,72 @@ def make_plain_group(ex, st):
 def _where_ghost(ex, st):
     # the predicate "is an ungrouped WHERE keyword" exactly as group_where searches for it
     st.ghost['OPENP'] = ex.spec_fn('NEXTBY_PRED', [], {'i': None, 'm': ex.W.sql.Where.M_OPEN, 't': None}, st)[0][1]
+    # "is one of the keywords that end a WHERE clause" exactly as group_where searches for it
+    st.ghost['CLOSEP'] = ex.spec_fn('NEXTBY_PRED', [], {'i': None, 'm': ex.W.sql.Where.M_CLOSE, 't': None}, st)[0][1]
 
 
 _pass_contract('group_where', tlist=make_plain_group, loops={'0': {
     'bind': bind_elem_or_none('tlist', 'tidx', 'token'),
     # coverage (C13 "the Where node spans from WHERE ..." needs every WHERE to become a node): no ungrouped WHERE
     # keyword is left behind the cursor
-    'inv': ['NOMATCH(OPENP, tlist, 0, len(tlist.tokens)) if token is None else NOMATCH(OPENP, tlist, 0, tidx)']}},
+    'inv': ['NOMATCH(OPENP, tlist, 0, len(tlist.tokens)) if token is None else NOMATCH(OPENP, tlist, 0, tidx)',
+            # the cursor stands on an ungrouped WHERE keyword (result of the first-match search)
+            'token is None or MATCH(OPENP, tlist, tidx)']}},
     extra={'ghost_init': staticmethod(_where_ghost),
-           'ensures': ['NOMATCH(OPENP, tlist, 0, len(tlist.tokens))']})
+           'ensures': ['NOMATCH(OPENP, tlist, 0, len(tlist.tokens))'],
+           # extent (C13 "spans from WHERE up to, not including, the next closing keyword at the same level, or else to the
+           # end"): the grouped range starts at a WHERE keyword, contains no closing keyword behind it, and is followed
+           # directly by a closing keyword or by nothing
+           'callsite_asserts': {'group_tokens': [
+               'MATCH(OPENP, tlist, tidx)',
+               'NOMATCH(CLOSEP, tlist, tidx + 1, eidx + 1)',
+               'eidx + 1 == len(tlist.tokens) or MATCH(CLOSEP, tlist, eidx + 1)']}})
+
+
+def make_bracket_group(ex, st):
+    """a Parenthesis / SquareBrackets / If / For / Case / Begin node (bracket shape B: it has its two delimiters): its
+    _groupable_tokens are the children between the delimiters"""
+    g = make_group(ex, st, 'tlist')
+    W = ex.W
+    special = [k for k in W.classes if '_groupable_tokens' in vars(k) and k is not W.sql.TokenList]
+    z = st.objs[g.oid]['CLS']
+    st.assume(z3.Or(*[z == W.cls_const[k] for k in special]))
+    return g
+
+
+def _where_ghost_bracket(ex, st):
+    _where_ghost(ex, st)
+    tl = st.env['tlist']
+    lst = ex.getattr(tl, 'tokens', st)
+    n = ex.zlen(st, lst)
+    st.assume(n >= 2)           # (also stated under `requires`)
+    r = ex.elem_at(st, lst, z3.simplify(n - 1))
+    assert len(r) == 1
+    st.ghost['LAST'] = r[0][1]  # the closing delimiter: the same object throughout (the pass never groups it)
+
+
+_WHERE_BRACKET_LEMMAS = [
+    # definition of MATCH for the concrete predicate at the last position
+    'MATCH(OPENP, tlist, len(tlist.tokens) - 1) == OPENP(tlist.tokens[len(tlist.tokens) - 1])']
+
+_pass_contract('group_where', tlist=make_bracket_group, case='call sites, inside a bracket or block group', loops={'0': {
+    'bind': bind_elem_or_none('tlist', 'tidx', 'token'),
+    'lemmas': _WHERE_BRACKET_LEMMAS,
+    'inv': [# bracket shape B is kept: both delimiters stay where they are and neither is a WHERE keyword
+            # (ENDS_WITH first: it fixes the representation of the list the other invariants speak about)
+            'ENDS_WITH(tlist, LAST)', 'len(tlist.tokens) >= 2', 'NOMATCH(OPENP, tlist, 0, 1)', 'not OPENP(LAST)',
+            'NOMATCH(OPENP, tlist, 0, len(tlist.tokens)) if token is None else NOMATCH(OPENP, tlist, 0, tidx)',
+            'token is None or MATCH(OPENP, tlist, tidx)']}},
+    extra={'ghost_init': staticmethod(_where_ghost_bracket),
+           # bracket shape B (established by _group_matching): at least the two delimiters, neither of which is a WHERE keyword
+           'requires': ['len(tlist.tokens) >= 2', 'not MATCH(OPENP, tlist, 0)', 'not OPENP(LAST)'],
+           'ensures': ['NOMATCH(OPENP, tlist, 0, len(tlist.tokens))'],
+           # extent: "... or else to the end of the enclosing parenthesis": the clause stops in front of the closing delimiter
+           'callsite_asserts': {'group_tokens': [
+               'MATCH(OPENP, tlist, tidx)',
+               'NOMATCH(CLOSEP, tlist, tidx + 1, eidx + 1)',
+               'eidx + 1 == len(tlist.tokens) - 1 or MATCH(CLOSEP, tlist, eidx + 1)',
+               'eidx + 1 <= len(tlist.tokens) - 1']}})
 
 
 # --------------------------------------------------------------------------------- _group (the infix joiner)
